@@ -62,6 +62,23 @@ void verif_driver_geom(const osmium::Node& node, const osmium::Way& way, const o
     use_factory(wktm, node, way, area, wnl);
     use_factory(gj, node, way, area, wnl);
     use_factory(gjm, node, way, area, wnl);
+    // constructors that take a projection object plus back-end settings (and the projection alone), for every back end
+    osmium::geom::WKBFactory<MercatorProjection> wkbp{MercatorProjection{}, osmium::geom::wkb_type::ewkb, osmium::geom::out_type::hex};
+    osmium::geom::WKBFactory<IdentityProjection> wkbpi{IdentityProjection{}, osmium::geom::wkb_type::ewkb};
+    osmium::geom::WKTFactory<MercatorProjection> wktp{MercatorProjection{}, 3, osmium::geom::wkt_type::ewkt};
+    osmium::geom::WKTFactory<IdentityProjection> wktpi{IdentityProjection{}, 3};
+    osmium::geom::GeoJSONFactory<MercatorProjection> gjp{MercatorProjection{}, 3};
+    osmium::geom::GeoJSONFactory<IdentityProjection> gjpi{IdentityProjection{}};
+    osmium::geom::WKBFactory<MercatorProjection> wkbpo{MercatorProjection{}};
+    osmium::geom::WKTFactory<MercatorProjection> wktpo{MercatorProjection{}};
+    (void)wkbpo.epsg();
+    (void)wktpo.epsg();
+    (void)wkbp.epsg();
+    (void)wkbpi.epsg();
+    (void)wktp.epsg();
+    (void)wktpi.epsg();
+    (void)gjp.epsg();
+    (void)gjpi.epsg();
     osmium::geom::Tile t1{10, osmium::Location{}};
     osmium::geom::Tile t2{10, osmium::geom::Coordinates{1.0, 2.0}};
     osmium::geom::Tile t3{10, 1, 2};
